@@ -21,6 +21,7 @@ EXPLANATION = (
     "FromIterator; R7.4 the queue/output fields are private and nothing in those impls can insert into the queue; "
     "R7.5 Ready(Vec/Ok) is constructed only under Ready(None), the Err returned is the payload of the drained Err. "
     "With C02/R2.1+R2.4 (vacate<=>Ready, None iff empty) these give 'no element no input produced' on all paths.")
+WITNESSES = "thorough"  # E3 compile_fail witnesses (tier in which they run)
 ASSUMPTIONS = [
     "dev-profile MIR at mir-opt-level=0 represents the source",
     "the vacating drain (poll_inner) vacates slot i exactly when it returns Ready(Some((i, _))) -- C02 R2.1, re-checked here",
